@@ -642,4 +642,54 @@ CompareOK(A, B) ==
        = {[id |-> r.id, m |-> r.m, data |-> r.data, h |-> IF r.pert THEN 0 ELSE r.h] : r \in VRecs(B)})
   /\ Chk("TWIN.cells differ", K(A) = K(B))
   /\ Chk("TWIN.policies differ", A.cfg = B.cfg)
+
+---------------------------------------------------------------------------
+\* ---- C05 : what the validators must say about a (possibly corrupted) raw state -------------
+\* S carries, besides the usual projection, `finite` (per vertex id), `nblen` (raw neighbour
+\* buffer length per cell id, -1 = no buffer) and `maps_ok` (uuid <-> key lookups agree).
+RawRec(f, id) == f[ToString(id)]
+
+\* the library stores every cell positively oriented in ITS convention, sign det [coords | 1]
+\* = (-1)^D * (edge-vector determinant)  (docs/ORIENTATION_SPEC.md; calibrated by C12)
+LibSign(S, c) == CellOrient(S, c) * (IF S.D % 2 = 0 THEN 1 ELSE -1)
+PositiveOrientation(S) == \A c \in CRecs(S) : LibSign(S, c) = 1 \/ (HasPert(S, c.vs) /\ CellOrient(S, c) = 0)
+
+Ref1(S) ==
+  /\ Level1Q(S)
+  /\ \A r \in VRecs(S) : RawRec(S.finite, r.id)
+  /\ \A c \in CRecs(S) : RawRec(S.nblen, c.id) \in {-1, S.D + 1}
+Ref2(S) == Level2Q(S) /\ S.maps_ok
+Ref3(S, g) == Len(S.cells) > 0 /\ BallAt(K(S), NN(S), VIds(S), g) /\ PositiveOrientation(S)
+\* certainly valid: no cell whose orientation is inside the tolerance band (zero at the home of a
+\* perturbed vertex)
+Ref3Sure(S, g) == Ref3(S, g) /\ \A c \in CRecs(S) : LibSign(S, c) = 1
+
+Faulted(S, a, r) ==
+  LET g  == S.cfg.g
+      r1 == Ref1(S)
+      r2 == r1 /\ Ref2(S)
+      r3 == r2 /\ Ref3(S, g)
+      lib1 == r.cells_valid /\ r.verts_valid
+  IN
+  /\ Chk("C19.panic in a validator", "tds_valid" \in DOMAIN r)
+  \* an uncorrupted triangulation passes everything
+  /\ Chk("C05.valid triangulation rejected",
+         a.clean /\ r3 => lib1 /\ r.tds_valid /\ r.tds_validate /\ r.tri_valid /\ r.tri_validate /\ r.tri_completion)
+  \* soundness: the level that owns a violated invariant rejects
+  /\ Chk("C05.element level accepts an invalid element", ~r1 => ~lib1 /\ ~r.tds_validate /\ ~r.tri_validate /\ ~r.validate)
+  /\ Chk("C05.structural level accepts an invalid structure",
+         r1 /\ ~r2 => ~r.tds_valid /\ ~r.tds_validate /\ ~r.tri_validate /\ ~r.validate)
+  /\ Chk("C05.manifold level accepts an invalid complex",
+         r2 /\ ~r3 => ~r.tri_valid /\ ~r.tri_validate /\ ~r.validate)
+  /\ Chk("C05.completion check accepts a non-manifold vertex link",
+         r2 /\ g = "PLManifold" /\ ~VertexLinksOK(K(S), NN(S)) => ~r.tri_completion)
+  \* completeness: a state on which every invariant of a level holds is accepted by that level
+  /\ Chk("C05.element level rejects valid elements", r1 => lib1)
+  /\ Chk("C05.structural level rejects a valid structure", r2 => r.tds_valid /\ r.tds_validate)
+  /\ Chk("C05.manifold level rejects a valid complex", r2 /\ Ref3Sure(S, g) => r.tri_valid /\ r.tri_validate)
+  \* cumulative validators = conjunction of their levels; report empty <=> cumulative passes
+  /\ Chk("C05.Tds::validate is not the conjunction of Levels 1 and 2", r.tds_validate = (lib1 /\ r.tds_valid))
+  /\ Chk("C05.Triangulation::validate is not the conjunction of Levels 1-3", r.tri_validate = (r.tds_validate /\ r.tri_valid))
+  /\ Chk("C05.validate is not the conjunction of Levels 1-4", r.validate = (r.tri_validate /\ r.is_valid))
+  /\ Chk("C05.diagnostic report empty <=> cumulative validation passes", r.report_empty = r.validate)
 =============================================================================
